@@ -191,11 +191,19 @@ pub fn run(ctx: &Ctx, rep: &mut Report) {
     rep.assume("private keys whose reference signing loop needs more than 400 iterations are discarded and counted (pathological inconsistent keys); C13 covers their no-panic side");
     let max_msg = if ctx.quick() { 4096 } else { 262_144 };
     run_generated(ctx, rep, "generated", ctx.n(20_000, 200_000), || strategy(max_msg), check);
+    let mut ext: Vec<Case> = Vec::new();
+    for e in gen::sig_corpus() {
+        let (key, msg, rnd) = gen::xofsearch::sig_tuple_specs(e.index);
+        ext.push(Case { set: match e.set { 44 => 0, 65 => 1, _ => 2 }, sk: SkSpec::Generated(key), msg, ctx: BytesSpec::empty(), mode: 0, rnd, pre_draw: 1 });
+        rep.stats("sample_in_ball_extreme_signatures").maximum(&format!("max_consecutive_rejections_set{}", e.set), i64::from(e.sib_max_run));
+    }
+    crate::engine::run_list(rep, "sample_in_ball_extreme_signatures", &ext, check);
+    crate::props::history::run(ctx, rep, 2500, 60000);
 }
 
 pub fn replay(_ctx: &Ctx, sub: &str, case: &Value) -> Option<CheckResult> {
     if sub == "raw_bytes" {
         return crate::fuzzglue::replay_raw("C03", case);
     }
-    (sub == "generated").then(|| check(&from_case::<Case>(case), &mut Stats::default()))
+    (sub == "generated" || sub == "sample_in_ball_extreme_signatures").then(|| check(&from_case::<Case>(case), &mut Stats::default()))
 }
